@@ -1,10 +1,10 @@
 """C47 Paje traces are well formed."""
-import collections
 import hashlib
 import os
 import re
 import shutil
 import tempfile
+import threading
 
 from verif import build, proc
 from verif.gen import tracegen
@@ -78,17 +78,19 @@ class Runner:
         self.ctx = ctx
         self.tmp = tempfile.mkdtemp(prefix="verif-C47-")
         self.n = 0
-        self.keys_seen = collections.Counter()
+        self.lock = threading.Lock()
 
     def close(self):
         shutil.rmtree(self.tmp, ignore_errors=True)
 
     def path(self, tag):
-        self.n += 1
+        with self.lock:
+            self.n += 1
         return os.path.join(self.tmp, "%s-%d-%s.trace" % (tag, os.getpid(), hashlib.sha1(("%s/%d" % (tag, self.n)).encode()).hexdigest()[:10]))
 
     # ---- judge one trace -------------------------------------------------------------------------------------
-    def judge(self, kind, witness, res, trace, finished):
+    def judge(self, kind, witness, res, trace, finished, baseline=None):
+        """baseline(): re-runs the same program without any tracing option, returns True when that run finishes."""
         ctx = self.ctx
         ctx.evaluation()
         ctx.count("runs." + kind)
@@ -98,6 +100,15 @@ class Runner:
         aborted = (res.rc != 0) or not finished
         if aborted:
             cls, line = classify_abort(res)
+            if baseline is not None and "TracingError" not in cls:
+                ok = baseline()
+                if ok is None:
+                    ctx.inconclusive("%s watchdog (baseline without tracing)" % kind)
+                    return None
+                if not ok:
+                    # the program dies without tracing too: whatever it is, it is not a tracing defect (other properties own it)
+                    ctx.count("runs.dies_without_tracing_too")
+                    return None
             ctx.count("runs.aborted")
             ctx.violation("C47:%s:%s" % (kind, cls), "%s run with %s did not finish (rc=%s): %s" % (kind, " ".join(witness["opts"]), res.rc, line),
                           dict(witness, stderr_tail=(res.err or "")[-1500:]))
@@ -146,15 +157,20 @@ class Runner:
             cmd.append("--cfg=contexts/factory:thread")
         res = proc.run(cmd, stdin=text, timeout=300)
         w = {"kind": "s4u", "text": text, "opts": list(opts), "flavour": flavour}
-        return self.judge(kind if flavour == "hooks" else kind + "-asan", w, res, trace, "END " in (res.out or ""))
+
+        def baseline():
+            c2 = [c for c in cmd if not c.startswith("--cfg=tracing")]
+            r2 = proc.run(c2, stdin=text, timeout=300)
+            return None if r2.timed_out else (r2.rc == 0 and "END " in (r2.out or ""))
+        return self.judge(kind if flavour == "hooks" else kind + "-asan", w, res, trace, "END " in (res.out or ""), baseline)
 
     # ---- MPI -------------------------------------------------------------------------------------------------
     def hostfile(self, hosts, np_):
         p = os.path.join(self.tmp, "hf-%s" % hashlib.sha1(repr(hosts).encode()).hexdigest()[:8])
-        if not os.path.exists(p):
-            with open(p + ".tmp%d" % os.getpid(), "w") as f:
-                f.write("\n".join(hosts) + "\n")
-            os.replace(p + ".tmp%d" % os.getpid(), p)
+        with self.lock:
+            if not os.path.exists(p):
+                with open(p, "w") as f:
+                    f.write("\n".join(hosts) + "\n")
         return p
 
     def run_mpi(self, m, opts):
@@ -169,7 +185,12 @@ class Runner:
         res = proc.run(cmd, timeout=400, cwd=self.tmp)
         w = {"kind": "mpi", "mpi": m, "opts": list(opts)}
         done = len(re.findall(r"^DONE \d+", res.out or "", re.M))
-        return self.judge("mpi", w, res, trace, done == m["np"])
+
+        def baseline():
+            c2 = [c for c in cmd if not c.startswith("--cfg=tracing")]
+            r2 = proc.run(c2, timeout=400, cwd=self.tmp)
+            return None if r2.timed_out else (r2.rc == 0 and len(re.findall(r"^DONE \d+", r2.out or "", re.M)) == m["np"])
+        return self.judge("mpi", w, res, trace, done == m["np"], baseline)
 
 
 def gen_mpi(rng, opts, tame):
